@@ -23,12 +23,18 @@ def table : Table :=
   { pkgVarWrites := Gowarc.Gen.pkgVarWrites, writerFieldWrites := Gowarc.Gen.writerFieldWrites, writerFieldReads := Gowarc.Gen.writerFieldReads, lockHolders := Gowarc.Gen.lockHolders,
     innerCalls := Gowarc.Gen.innerCalls, outerCalls := Gowarc.Gen.outerCalls, unsafeExternalCalls := Gowarc.Gen.unsafeExternalCalls,
     generatorFieldWrites := Gowarc.Gen.generatorFieldWrites, writerStructWrites := Gowarc.Gen.writerStructWrites, poolPuts := Gowarc.Gen.poolPuts,
-    pkgObjects := Gowarc.Gen.pkgObjects, readerFieldWrites := Gowarc.Gen.readerFieldWrites }
+    pkgObjects := Gowarc.Gen.pkgObjects, readerFieldWrites := Gowarc.Gen.readerFieldWrites,
+    optsFieldWrites := Gowarc.Gen.optsFieldWrites }
 
 /-- **the extracted table satisfies the discipline** -/
 theorem C11_table : RaceFree table = true := by decide
 
 theorem C11_closed : Closed table (unlocked table) = true := by decide
+
+/-- **options are immutable once constructed**: no function assigns a field of an options object through an `.opts`
+    field: the object a reader, unmarshaler or builder shares with all the records it produces is only ever read after
+    construction (seed C11-k: ToRevisitRecord adjusting the default digest algorithm in place) -/
+theorem C11_opts_immutable : table.optsFieldWrites = [] := by decide
 
 /-- **a file reader keeps nothing of what it hands out**: no method of WarcFileReader assigns a field except Close
     (which gives the input buffer back to its pool); a record returned by Next is referenced by its receiver alone (seed
